@@ -20,6 +20,10 @@ def bounds(ctx):
         for d in (-1, 0, 1):
             ns.add((1 << k) + d)
     ns |= {18325, 18328, 10129, 10, 6, 16, 62, 88, (1 << 31), (1 << 31) + 1, W - 1, W - 2, 3 * (1 << 30), 0}
+    # bounds that coincide with small ones modulo 2^8 and 2^16 (what a table of per-bound data indexed by a truncated n would confuse);
+    # the cases run in ascending order in one process, so the small bound has been drawn from before its aliases are
+    for n in (3, 5, 6, 7, 10, 13, 26, 62):
+        ns |= {n + 256, n + 512, n + 65536, n + (1 << 24)}
     extra = 200 if ctx.tier == "quick" else 3000
     for _ in range(extra):
         ns.add(ctx.rng.randrange(1, W))
